@@ -75,6 +75,10 @@ run("c19_mdarray.cpp", "nochk", ts(1, 2) + ["-DMC_STD2B=1"], TH, "c++2b")
 # both tiers: transposes over stride / double transposes + index-type boundary (all 8 index types); custom accessor / layout / const element / conversions
 run("c19_layout2.cpp", "nochk", ["-DMC_ITYPE=1"])
 run("c19_mdspan2.cpp", "nochk", ts(1, 0))
+# value semantics of mdarray over layout_stride (the mapping is run-time state even for static extents)
+run("c19_mdarray_stride.cpp", "nochk")
+run("c19_mdarray_stride.cpp", "san")
+run("c19_mdarray_stride.cpp", "chk", (), TH)
 # thorough only
 run("c19_layout2.cpp", "san", ["-DMC_ITYPE=1"], TH)
 run("c19_layout2.cpp", "chk", ["-DMC_ITYPE=1"], TH)
@@ -107,7 +111,7 @@ prop = {
  "level": "exploration",
  "engine": "E2",
  "technique": "bounded-exhaustive enumeration of extents types (generated at compile time from pattern numbers), dynamic extent values, layout mappings, constructors and multi-indices; every case executed on tetl and compared with the closed-form nested-loop reference (offset = sum i_k*stride_k, row-/column-major/strided strides, injectivity bitmap, bounds), span sub-views against pointer arithmetic and std::span; objects and element blocks live in exact-size guarded heap blocks (canaries + ASan), constructors are additionally constant-evaluated (GCC's evaluator sees in-object overflow); round 2: harness-written accessor/layout policies to see what mdspan forwards, boundary family with the required span size exactly at the maximum of each index type (reference in unsigned 64-bit arithmetic)",
- "rule": "Extents types: rank 0-3, each dimension in {static 0, static 1, static 2, static 3, dynamic} = 1+5+25+125 types (rank 4, thorough: {static 2, static 3, dynamic} = 81 types); index types int and size_t (size_t rank 3 thorough), thorough adds int8,uint8,int16,uint16,uint32,int64; dynamic extents run over 0..4 (rank 4: 0..3). Per extents value: default/copy and every constructor taking rank_dynamic() or rank() values as pack, etl::array, etl::span with two argument types; converting constructor from every compatible extents type (ranks 1-2 all pairs over 5 kinds, rank 3 over {2,3,dynamic}, rank 4 over {2,dynamic}); each form also constant-evaluated once per type. Mappings: layout_left and layout_right (from extents, default, copy/assign, converting to and from the all-dynamic type, left<->right at rank<=1), layout_stride (array and span of strides; strides = every permutation of the dimensions as nesting order x padding {0,1,3} (x innermost stride {1,2} thorough)), linalg::layout_transpose over left and right (rank 2): EVERY in-range multi-index, indices passed as index_type and as a second integer type. mdspan<int,E,L> for the same E and L in {right,left,stride,transpose}: 10 constructor forms x every index x operator()/operator[](array)/operator[](span) (operator[](i...) in a c++2b run), on a block of exactly required-span-size elements. mdarray<int,E,L,C>: E over {2,3,dynamic,0}, rank 0-3, dynamic extents 0..3 (thorough 0..4), L in {right,left}, C in {etl::array, etl::static_vector, range-checked heap vector}, 9 constructor forms x every index x 7-8 access/view forms + write/read-back. span: lengths 0..6 (thorough 0..8), element types char/int/12-byte struct, sources span<T>, span<T,N>, span<T const>: every (offset,count) with offset+count<=len for first/last/subspan at run time and as first<C>/last<C>/subspan<O>/subspan<O,C>, observers, iterators, as_bytes, all constructors/conversions, etl::array as the range. submdspan_extents: rank 1-3 types x dynamic extents 0..4 x every slice tuple over {full_extent, every in-range index}. Cases whose required span size (or a stride) is not representable in the index type or the second integer type are skipped and counted (skipped_not_representable). evaluations = compared observations (one per index and access form, plus the scalar observers); distinct_nontrivial = (type, extents value, constructor/mapping form) cases, distinct by construction of the odometers, that address more than one element (mappings, mdspan, mdarray), store at least one dynamic extent (extents constructors), keep at least one dimension (submdspan_extents) or denote a proper non-empty sub-range (span). ROUND 2 WIDENING. Extents (thorough): rank 4 over all five dimension kinds = 625 types (dynamic extents 0..3): every constructor form, constexpr probe, conversions from/to dextents of both index types and from the same pattern with the other index type; rank 4 converting constructor over {2,3,dynamic}: 81 targets x every compatible source = 2401 pairs; rank 5 and rank 6: six patterns each (all dynamic, all static, the two alternating ones, a static block next to a dynamic block, static 0 / static 1 next to dynamic), dynamic extents 0..3, index types int and size_t. The same twelve rank 5-6 types go through every mapping (left/right/stride; stride nesting orders = the 2R rotations of the identity and of the reversed order x padding) and every mdspan constructor and access form (index types int, size_t, int8, uint16). Transposes (rank 2, 25 types x dynamic 0..4; int quick, size_t/int8/uint16 thorough): layout_transpose<layout_stride> (both nesting orders x padding {0,1,3}) and the double transposes layout_transpose<layout_transpose<L>>, L in {left,right,stride}, which must address like L: every index with two argument types, stride(r), required_span_size() where the nested layout defines it, nested_mapping(), operator== (equal copy / larger extent), copy and assignment; the same layouts under mdspan. Index-type boundary, ALL eight index types: mappings on dextents<I,R>, R = 1..3, whose required span size is exactly numeric_limits<I>::max(): layout_left/right (and layout_transpose over both at R = 2) for every ordered factorisation of max() into R factors; layout_stride for inner extents 1..4 x every nesting order x inner padding {0,1} x outermost extent 2..7 with the outer stride solved from 1+sum((e_k-1)*s_k) == max() (shapes with no integer non-overlapping solution are counted as stride_shapes_without_exact_fit and not built). Every index when max() <= 65535, then also an mdspan<unsigned char> over a real exact-size block of max() elements (address of every element through operator() and operator[](array)); otherwise the corner indices {0,1,e/2,e-2,e-1}^R and the mdspan observers that touch no element. mdspan over policies written in the harness (rank 0-2 over five kinds quick; rank 3 over {2,3,dynamic}, rank 4 over {2,dynamic}, size_t/int8/uint16 thorough): off_accessor (run-time state k, access(p,i) = p[i+k]; through constructor (7), copy, move and the converting constructor, k must survive), scale_accessor (data handle is a struct, reference is a value), layout_odd (offset 2*rowmajor+1, required span 2*size(), unique, not strided, not exhaustive; all seven constructor forms), both combined through the converting constructor; const element type built directly from int const* over right/left/stride; conversions to dextents<other index> (int -> int const), to the same pattern with the other index type, right <-> left at rank <= 1; every index x operator()/operator[](array)/operator[](span), size/empty/extent/stride and the is_* observers against what the mapping says. mdarray copy / move / copy-assignment / move-assignment / swap: every object is written through and all others re-read (independence; nochk, chk and c++2b runs, the san run keeps the short form). span: every run-time chain subspan(o1,c1) then subspan(o2) / subspan(o2,c2) / first(c2) / last(c2); static chains subspan<O1,C1>().subspan<O2,C2>(), subspan<O1,C1>().subspan<O2>(), subspan<O1>().subspan<O2>(), first<C1>().last<C2>(), last<C1>().first<C2>() for lengths 0..4 of int (thorough: int 0..5, char and S12 0..4), each compared with the offset/size/extent of the single equivalent view and with std::span; for every sub-view reverse iteration, operator[] at 0 and size()-1, front/back, size_bytes, as_bytes/as_writable_bytes; default-constructed span<T,0>, span<T>, span<T const>; std::array and const etl::array sources with static and dynamic extent; span assignment. submdspan_extents (thorough): rank 3 over all five dimension kinds (125 types x 8 slice-kind tuples) and rank 4 over {2,3,dynamic} (81 types x 16 tuples, dynamic extents 0..3), int and size_t.",
+ "rule": "Extents types: rank 0-3, each dimension in {static 0, static 1, static 2, static 3, dynamic} = 1+5+25+125 types (rank 4, thorough: {static 2, static 3, dynamic} = 81 types); index types int and size_t (size_t rank 3 thorough), thorough adds int8,uint8,int16,uint16,uint32,int64; dynamic extents run over 0..4 (rank 4: 0..3). Per extents value: default/copy and every constructor taking rank_dynamic() or rank() values as pack, etl::array, etl::span with two argument types; converting constructor from every compatible extents type (ranks 1-2 all pairs over 5 kinds, rank 3 over {2,3,dynamic}, rank 4 over {2,dynamic}); each form also constant-evaluated once per type. Mappings: layout_left and layout_right (from extents, default, copy/assign, converting to and from the all-dynamic type, left<->right at rank<=1), layout_stride (array and span of strides; strides = every permutation of the dimensions as nesting order x padding {0,1,3} (x innermost stride {1,2} thorough)), linalg::layout_transpose over left and right (rank 2): EVERY in-range multi-index, indices passed as index_type and as a second integer type. mdspan<int,E,L> for the same E and L in {right,left,stride,transpose}: 10 constructor forms x every index x operator()/operator[](array)/operator[](span) (operator[](i...) in a c++2b run), on a block of exactly required-span-size elements. mdarray<int,E,L,C>: E over {2,3,dynamic,0}, rank 0-3, dynamic extents 0..3 (thorough 0..4), L in {right,left}, C in {etl::array, etl::static_vector, range-checked heap vector}, 9 constructor forms x every index x 7-8 access/view forms + write/read-back. span: lengths 0..6 (thorough 0..8), element types char/int/12-byte struct, sources span<T>, span<T,N>, span<T const>: every (offset,count) with offset+count<=len for first/last/subspan at run time and as first<C>/last<C>/subspan<O>/subspan<O,C>, observers, iterators, as_bytes, all constructors/conversions, etl::array as the range. submdspan_extents: rank 1-3 types x dynamic extents 0..4 x every slice tuple over {full_extent, every in-range index}. Cases whose required span size (or a stride) is not representable in the index type or the second integer type are skipped and counted (skipped_not_representable). evaluations = compared observations (one per index and access form, plus the scalar observers); distinct_nontrivial = (type, extents value, constructor/mapping form) cases, distinct by construction of the odometers, that address more than one element (mappings, mdspan, mdarray), store at least one dynamic extent (extents constructors), keep at least one dimension (submdspan_extents) or denote a proper non-empty sub-range (span). ROUND 2 WIDENING. Extents (thorough): rank 4 over all five dimension kinds = 625 types (dynamic extents 0..3): every constructor form, constexpr probe, conversions from/to dextents of both index types and from the same pattern with the other index type; rank 4 converting constructor over {2,3,dynamic}: 81 targets x every compatible source = 2401 pairs; rank 5 and rank 6: six patterns each (all dynamic, all static, the two alternating ones, a static block next to a dynamic block, static 0 / static 1 next to dynamic), dynamic extents 0..3, index types int and size_t. The same twelve rank 5-6 types go through every mapping (left/right/stride; stride nesting orders = the 2R rotations of the identity and of the reversed order x padding) and every mdspan constructor and access form (index types int, size_t, int8, uint16). Transposes (rank 2, 25 types x dynamic 0..4; int quick, size_t/int8/uint16 thorough): layout_transpose<layout_stride> (both nesting orders x padding {0,1,3}) and the double transposes layout_transpose<layout_transpose<L>>, L in {left,right,stride}, which must address like L: every index with two argument types, stride(r), required_span_size() where the nested layout defines it, nested_mapping(), operator== (equal copy / larger extent), copy and assignment; the same layouts under mdspan. Index-type boundary, ALL eight index types: mappings on dextents<I,R>, R = 1..3, whose required span size is exactly numeric_limits<I>::max(): layout_left/right (and layout_transpose over both at R = 2) for every ordered factorisation of max() into R factors; layout_stride for inner extents 1..4 x every nesting order x inner padding {0,1} x outermost extent 2..7 with the outer stride solved from 1+sum((e_k-1)*s_k) == max() (shapes with no integer non-overlapping solution are counted as stride_shapes_without_exact_fit and not built). Every index when max() <= 65535, then also an mdspan<unsigned char> over a real exact-size block of max() elements (address of every element through operator() and operator[](array)); otherwise the corner indices {0,1,e/2,e-2,e-1}^R and the mdspan observers that touch no element. mdspan over policies written in the harness (rank 0-2 over five kinds quick; rank 3 over {2,3,dynamic}, rank 4 over {2,dynamic}, size_t/int8/uint16 thorough): off_accessor (run-time state k, access(p,i) = p[i+k]; through constructor (7), copy, move and the converting constructor, k must survive), scale_accessor (data handle is a struct, reference is a value), layout_odd (offset 2*rowmajor+1, required span 2*size(), unique, not strided, not exhaustive; all seven constructor forms), both combined through the converting constructor; const element type built directly from int const* over right/left/stride; conversions to dextents<other index> (int -> int const), to the same pattern with the other index type, right <-> left at rank <= 1; every index x operator()/operator[](array)/operator[](span), size/empty/extent/stride and the is_* observers against what the mapping says. mdarray copy / move / copy-assignment / move-assignment / swap: every object is written through and all others re-read (independence; nochk, chk and c++2b runs, the san run keeps the short form). mdarray over layout_stride (c19_mdarray_stride.cpp): extents types {<2,3>, <dyn,3>, <2,dyn>, dextents<2>} x index types {int, uint8_t, int64_t} x every ordered pair of 5 stride sets of the 2x3 index space x {copy/move construction, copy/move assignment, swap, swap twice}: extent, stride, mapping().strides(), address and value of every element through operator(), operator[](array), the const overload and to_mdspan() must be the source's; static-max jobs (c19_layout2.cpp): seven mixed static/dynamic patterns whose static extent equals max() of an 8/16-bit index type. span: every run-time chain subspan(o1,c1) then subspan(o2) / subspan(o2,c2) / first(c2) / last(c2); static chains subspan<O1,C1>().subspan<O2,C2>(), subspan<O1,C1>().subspan<O2>(), subspan<O1>().subspan<O2>(), first<C1>().last<C2>(), last<C1>().first<C2>() for lengths 0..4 of int (thorough: int 0..5, char and S12 0..4), each compared with the offset/size/extent of the single equivalent view and with std::span; for every sub-view reverse iteration, operator[] at 0 and size()-1, front/back, size_bytes, as_bytes/as_writable_bytes; default-constructed span<T,0>, span<T>, span<T const>; std::array and const etl::array sources with static and dynamic extent; span assignment. submdspan_extents (thorough): rank 3 over all five dimension kinds (125 types x 8 slice-kind tuples) and rank 4 over {2,3,dynamic} (81 types x 16 tuples, dynamic extents 0..3), int and size_t.",
  "assumptions": [
   "std::mdspan does not exist in libstdc++ 12: the oracle is the closed-form nested-loop reference of [mdspan.layout.*] / P1673 layout_transpose; std::span (libstdc++) is a second oracle for span (disagreement between the two is reported as harness:oracle-disagreement)",
   "only valid inputs: constructor values equal the static extents where those exist, converting constructors only from sources whose run-time extents match the target's static extents, strides positive and nested (unique), indices in range, span offset+count <= size, required span size representable in the index type",
